@@ -421,6 +421,15 @@ func (m *Manager) AllocateNAT(privateIP net.IP) (*Allocation, error) {
 	m.poolMu.Lock()
 	defer m.poolMu.Unlock()
 
+	// Look again now that allocations are serialised by poolMu: a concurrent AllocateNAT
+	// for the same private IP may have created the allocation since the check above.
+	m.allocationMu.RLock()
+	existing, ok := m.allocations[privKey]
+	m.allocationMu.RUnlock()
+	if ok {
+		return existing, nil
+	}
+
 	var selectedPool *PoolEntry
 	var poolIndex int
 	for i := range m.pool {
